@@ -481,7 +481,7 @@ where
     let start = ctx.rng.below(n);
     let Some(i) = (0..n).rev().map(|k| (start + k) % n).find(|&i| {
         let b = &ctx.sh.blocks[i];
-        b.len > 0 && b.len == b.layout.size() && matches!(b.layout.align(), 1 | 2 | 4 | 8) && b.len % b.layout.align() == 0
+        !b.ro && b.len > 0 && b.len == b.layout.size() && matches!(b.layout.align(), 1 | 2 | 4 | 8) && b.len % b.layout.align() == 0
     }) else {
         return;
     };
